@@ -29,7 +29,7 @@ func init() { register("C05", c05) }
 // ---------------------------------------------------------------------------------------------
 // generator: comments in every attachment field
 
-var c05Texts = []string{" c", " note", "", " a b ", " x;y", " $(x) `y`", " trailing\t", "!", " ## ", " é\u00a0", " w\u2003 ", " 'q", " \"dq", " )", " }", " fi", " a\tb", " \\ x", " \\"}
+var c05Texts = []string{" c", " note", "", " a b ", " x;y", " $(x) `y`", " trailing\t", "!", " ## ", " é\u00a0", " w\u2003 ", " 'q", " \"dq", " )", " }", " fi", " a\tb", " \\ x", " \\", " f\ff", " v\vt"}
 
 type c05Gen struct {
 	n int
@@ -1001,57 +1001,27 @@ func c05Regions(o c05Opts, f *syntax.File) []string {
 				// parser defect: a heredoc body is not read at the newline that follows `]]`
 				set("heredoc-then-test-clause")
 			}
-		case *syntax.Redirect:
-			if n.Op == syntax.DashHdoc && n.Hdoc != nil {
-				for _, c := range c05CommentsOf(reflect.ValueOf(n.Hdoc)) {
-					if strings.Contains(c05Trim(c.text), "\t") {
-						set("tab-in-dash-heredoc-comment") // F12a
-					}
-				}
-			}
-		case *syntax.Comment:
-			t := c05Trim(n.Text)
-			if strings.ContainsAny(t, "\f\v") && !strings.Contains(t, "\t") {
-				set("formfeed-in-comment") // F9
-			}
 		case *syntax.BinaryCmd:
-			if len(n.Y.Comments) > 0 {
-				if o.single {
-					set("single-ycomments") // F1
-				}
-				for _, c := range n.Y.Comments {
-					if c.Pos().After(n.Y.Pos()) {
-						set("ycomments-trailing") // F2
-					}
-				}
-			}
-		case *syntax.TimeClause:
-			if n.Stmt != nil && len(n.Stmt.Comments) > 0 {
-				set("clause-inner-comments") // F3
-			}
-		case *syntax.CoprocClause:
-			if n.Stmt != nil && len(n.Stmt.Comments) > 0 {
-				set("clause-inner-comments")
-			}
-		case *syntax.TestDecl:
-			if n.Body != nil && len(n.Body.Comments) > 0 {
-				set("clause-inner-comments")
+			if o.single && len(n.Y.Comments) > 0 && !n.Y.Comments[0].Pos().After(n.Y.Pos()) &&
+				len(c05CommentsOf(reflect.ValueOf(n.Y))) > len(n.Y.Comments) {
+				// printed on one line, Y.Comments is queued after Y: behind the comments inside Y
+				set("single-ycomments-after-nested")
 			}
 		case *syntax.Stmt:
 			if n.Cmd != nil && cmdEndsBare(n.Cmd) {
 				for _, c := range n.Comments {
 					if c.End().After(n.Cmd.End()) {
-						set("comment-after-bare-time-coproc") // F5
+						set("comment-after-bare-time-coproc")
 					}
 				}
 			}
 			if fd, ok := n.Cmd.(*syntax.FuncDecl); ok && len(fd.Body.Comments) > 0 && stmtEndsBare(fd.Body) {
-				set("comment-after-bare-time-coproc") // F5 (comment queued before the body is flushed after it)
+				set("comment-after-bare-time-coproc") // comment queued before the body is flushed after it
 			}
 			if fd, ok := n.Cmd.(*syntax.FuncDecl); ok {
 				for _, c := range fd.Body.Comments {
 					if c.Pos().After(fd.Body.Pos()) {
-						set("funcdecl-body-trailing-comment") // F13a: printed before the body
+						set("funcdecl-body-trailing-comment") // printed before the body
 					}
 				}
 			}
@@ -1060,7 +1030,7 @@ func c05Regions(o c05Opts, f *syntax.File) []string {
 				if n.Cmd == nil && c.Pos().After(n.Pos()) {
 					for _, r := range n.Redirs {
 						if c05HasSubst(r) {
-							set("redirect-only-stmt-comment") // F13b: printed before the statement, flushed inside its substitution
+							set("redirect-only-stmt-comment") // printed before the statement, flushed inside its substitution
 						}
 					}
 				}
@@ -1069,32 +1039,14 @@ func c05Regions(o c05Opts, f *syntax.File) []string {
 				}
 				// c is what the printer calls a "mid" comment
 				if !isFor || c.Pos().After(fc.DoPos) && c.Pos().Line() != fc.DoPos.Line() {
-					set("trailing-comment-before-heredoc-body") // F13: Cmd.End() lies after c only because of a heredoc body
-				} else {
-					if has(fc.Loop) || c05HasSubst(fc.Loop) {
-						set("for-header-substitution") // F8
-					}
-					if wi, ok := fc.Loop.(*syntax.WordIter); ok && o.single && !wi.InPos.IsValid() {
-						set("single-for-name-comment") // F14
-					}
+					set("trailing-comment-before-heredoc-body") // Cmd.End() lies after c only because of a heredoc body
+				} else if has(fc.Loop) || c05HasSubst(fc.Loop) {
+					set("for-header-substitution")
 				}
 			}
 			for _, r := range n.Redirs {
 				if r.Hdoc != nil && o.single && has(r.Hdoc) {
-					set("single-heredoc-body-comments") // F7
-				}
-			}
-		case *syntax.CaseClause:
-			if len(n.Items) == 0 && len(n.Last) > 0 && n.Last[0].Pos().Line() == n.In.Line() && anyHdoc {
-				set("empty-case-comment-into-heredoc") // F10
-			}
-		case *syntax.CmdSubst:
-			if n.Backquotes && len(n.Stmts) == 0 && len(n.Last) == 1 {
-				if o.minify {
-					set("minify-backquote-comment") // F6
-				}
-				if strings.Contains(c05Trim(n.Last[0].Text), "\t") {
-					set("tab-in-backquote-comment") // F12b
+					set("single-heredoc-body-comments")
 				}
 			}
 		}
@@ -1136,9 +1088,7 @@ func c05TieSkip(o c05Opts, f *syntax.File, d *c05Dumper) string {
 	}
 	for _, ex := range c05Regions(o, f) {
 		switch ex {
-		case "formfeed-in-comment", "comment-after-bare-time-coproc",
-			"empty-case-comment-into-heredoc", "tab-in-dash-heredoc-comment", "tab-in-backquote-comment",
-			"single-for-name-comment", "heredoc-then-test-clause":
+		case "comment-after-bare-time-coproc", "heredoc-then-test-clause":
 			return ex
 		}
 	}
